@@ -89,8 +89,22 @@ class FakeSock(_socket.socket):
         return b"".join(e for e in self._events if isinstance(e, bytes))
 
 
+class CappedStream:
+    """A file-like object over bytes whose read(n) returns at most `cap` bytes per call although more data follows
+    (a serial port with a short timeout): the reader reports a premature end of stream for that frame and goes on."""
+
+    def __init__(self, bio, cap):
+        self.bio, self.cap = bio, cap
+
+    def read(self, n=-1):
+        return self.bio.read(min(n, self.cap) if n is not None and n >= 0 else self.cap)
+
+    def readline(self):
+        return self.bio.readline()
+
+
 def run_reader(stream, pf=7, qe=1, parsing=True, validate=1, msgmode=0, handler=True, bf=True,
-               sock_events=None, bufsize=4096, sock_end="close", max_items=100000):
+               sock_events=None, bufsize=4096, sock_end="close", max_items=100000, readcap=None):
     """Iterate the real UBXReader.  Returns a dict of observations.
     stream: bytes (file-like run) or None when sock_events is given."""
     global _rec
@@ -111,7 +125,7 @@ def run_reader(stream, pf=7, qe=1, parsing=True, validate=1, msgmode=0, handler=
             src = fs
         else:
             bio = io.BytesIO(stream)
-            src = bio
+            src = bio if readcap is None else CappedStream(bio, readcap)
         kw = dict(protfilter=pf, quitonerror=qe, parsing=parsing, validate=validate, msgmode=msgmode,
                   parsebitfield=bf, bufsize=bufsize)
         if handler == "obj":
